@@ -395,6 +395,13 @@ class Check:
             self.finish(res, t0, n_obl, 0, pa_cmd, pa_text, dict(evaluations=0), assumptions, 1)
             return 1
         model_ok = b['extract_ok'] and os.path.exists(BUILD + '/model_runner')
+        stale_model = False
+        if not model_ok and os.path.exists(BUILD + '/model_runner'):
+            # the model no longer builds (already a failed obligation, reported below): the runner built from the last good
+            # tree is still the best oracle for the failing-input search
+            model_ok = stale_model = True
+            if not proof_failure:
+                proof_failure = 'the executable model no longer builds: ' + b['extract_log'][-600:]
         # 3. correspondence
         cases, info = P.generate(self.rng, self.tier)
         corpus = self.load_corpus()
@@ -410,6 +417,14 @@ class Check:
                     mismatches.append((cid, lines))
         else:
             errs.append('model runner unavailable: ' + b['extract_log'][-1500:])
+            # implementation alone: the property module's own judgement (extra) can still find a failing input
+            path = '%s/scripts/%s.txt' % (BUILD, prop)
+            os.makedirs(BUILD + '/scripts', exist_ok=True)
+            write_script(path, cases)
+            rc_i, out_i, err_i = run_sharded(BUILD + '/impl_runner', cases, path, 'i')
+            ci, _ = split_cases(out_i)
+            if project:
+                ci = {k: project(k, v) for k, v in ci.items()}
         known = load_known(prop)
         known_hits = {}
         violations = []
